@@ -1,10 +1,13 @@
 import ParryModel.C05.Theorems1
 import ParryModel.C05.Theorems2
+import ParryModel.C05.Theorems3
 /-!
 # C05 property theorems (umbrella file)
 
 * `Theorems1.lean` — segment, ball, half-space, Aabb/cuboid, 2-D triangle, default methods, posed forms, 3-D capsule, cylinder
   (the original 108 theorems, unchanged).
 * `Theorems2.lean` — growth: 3-D triangle, cone, 2-D capsule, Aabb/cuboid feature ids, composite glue.
+* `Theorems3.lean` — growth 2: the reported triangle location *contains* the projection (edge / face barycentric coordinates are
+  non-negative, 2-D and 3-D), unconditional 2-D membership.
 `./mkaudit C05` collects the public `theorem`s of every `Theorems*.lean`.
 -/
